@@ -179,14 +179,14 @@ func isXRange(c string) bool {
 		core = core[:i]
 	}
 	for _, part := range strings.Split(core, ".") {
-		if part == "x" || part == "X" {
+		if part == "x" || part == "X" || part == "*" {
 			return true
 		}
 	}
 	return false
 }
 
-// parseXRange handles x-ranges (1.x, 1.2.x)
+// parseXRange handles x-ranges (1.x, 1.2.x, 1.*, 1.2.*)
 func parseXRange(rangeStr string) ([]*constraint, error) {
 	parts := strings.Split(rangeStr, ".")
 	if len(parts) < 2 {
@@ -199,7 +199,7 @@ func parseXRange(rangeStr string) ([]*constraint, error) {
 	}
 
 	// 1.x means >=1.0.0-0 <2.0.0-0 (includes prereleases in range, excludes prereleases from next major)
-	if len(parts) == 2 && (parts[1] == "x" || parts[1] == "X") {
+	if len(parts) == 2 && (parts[1] == "x" || parts[1] == "X" || parts[1] == "*") {
 		return []*constraint{
 			{operator: ">=", version: fmt.Sprintf("%d.0.0-0", major)},
 			{operator: "<", version: fmt.Sprintf("%d.0.0-0", major+1)},
@@ -207,7 +207,7 @@ func parseXRange(rangeStr string) ([]*constraint, error) {
 	}
 
 	// 1.2.x means >=1.2.0-0 <1.3.0-0 (includes prereleases in range, excludes prereleases from next minor)
-	if len(parts) == 3 && (parts[2] == "x" || parts[2] == "X") {
+	if len(parts) == 3 && (parts[2] == "x" || parts[2] == "X" || parts[2] == "*") {
 		minor, err := strconv.Atoi(parts[1])
 		if err != nil {
 			return nil, fmt.Errorf("invalid minor version in x-range: %s", parts[1])
